@@ -5,6 +5,7 @@ import (
 	stdjson "encoding/json"
 	"fmt"
 	"io"
+	"strings"
 
 	"github.com/tdewolff/parse/v2"
 	"github.com/tdewolff/parse/v2/json"
@@ -373,8 +374,32 @@ var c10Probes = []struct{ name, doc string }{
 	{"number-as-key", "{1:2}"},
 }
 
+// deeply nested valid documents (encoding/json accepts up to 10000 levels): nesting depth is not part of validity
+var c10DeepProbes = func() []struct{ name, doc string } {
+	var out []struct{ name, doc string }
+	for _, d := range []int{1025, 3000, 9999} {
+		out = append(out,
+			struct{ name, doc string }{fmt.Sprintf("deep-arrays-%d", d), strings.Repeat("[", d) + "1" + strings.Repeat("]", d)},
+			struct{ name, doc string }{fmt.Sprintf("deep-objects-%d", d), strings.Repeat(`{"a":`, d) + "null" + strings.Repeat("}", d)},
+			struct{ name, doc string }{fmt.Sprintf("deep-mixed-%d", d), strings.Repeat(`[{"k":[`, d/3) + `"v"` + strings.Repeat(`]}]`, d/3)})
+	}
+	return out
+}()
+
 func c10Probe(t *fw.T) {
-	p := c10Probes[t.Index%len(c10Probes)]
+	if i := t.Index % (len(c10Probes) + len(c10DeepProbes)); i >= len(c10Probes) {
+		p := c10DeepProbes[i-len(c10Probes)]
+		t.Key("probe:" + p.name)
+		t.Desc(&c10Case{Kind: "probe", Doc: []byte(p.name)})
+		if !stdjson.Valid([]byte(p.doc)) {
+			return
+		}
+		c10CheckValid(t, []byte(p.doc), "tight")
+		t.Count("probes", 1)
+		t.Nontrivial([]byte(p.name))
+		return
+	}
+	p := c10Probes[t.Index%(len(c10Probes)+len(c10DeepProbes))]
 	t.Key("probe:" + p.name)
 	t.Desc(&c10Case{Kind: "probe", Doc: []byte(p.doc)})
 	units, err, _, ok := c10Drive(t, []byte(p.doc), "string")
@@ -405,7 +430,7 @@ func init() {
 			"a structural mutant is 'reported instead of delivered' when the first error report is a *parse.Error and no unit ending beyond the offending token precedes it"},
 		Required: []string{"units", "valid.docs", "fuzz.valid", "fuzz.invalid", "hook.depth.checks", "mutant.mismatched-closer", "mutant.extra-closer", "mutant.missing-comma", "mutant.missing-colon", "mutant.non-string-key", "probes"},
 		Streams: []fw.Stream{
-			{Name: "probes", Quick: len(c10Probes), Thorough: len(c10Probes), Run: c10Probe},
+			{Name: "probes", Quick: len(c10Probes) + len(c10DeepProbes), Thorough: len(c10Probes) + len(c10DeepProbes), Run: c10Probe},
 			{Name: "valid", Quick: 300000, Thorough: 48000000, Run: c10Valid},
 			{Name: "fuzz", Quick: 300000, Thorough: 48000000, Run: c10Fuzz},
 			{Name: "mutant", Quick: 300000, Thorough: 48000000, Run: c10Mutant},
